@@ -25,6 +25,7 @@ BATTERY = [
     ('elf/dynamic.py', 'DynamicSegment.num_symbols'), ('elf/hash.py', 'GNUHashTable.get_number_of_symbols'),
     ('elf/hash.py', 'ELFHashTable.get_number_of_symbols'), ('elf/dynamic.py', 'Dynamic.iter_tags'), ('elf/dynamic.py', 'Dynamic.num_tags'),
     ('elf/notes.py', 'iter_notes'), ('elf/sections.py', 'NoteSection.iter_notes'), ('elf/segments.py', 'NoteSegment.iter_notes'),
+    ('elf/gnuversions.py', 'GNUVersionSection.iter_versions'), ('elf/gnuversions.py', 'GNUVersionSection._iter_version_auxiliaries'),
 ]
 # asserts on the constructor graph that are discharged by facts established earlier on every path (one symbol, one reason)
 ASSERT_EXC = {
@@ -424,7 +425,70 @@ def check_loops(ctx, w, graph):
                 stored = set(x.id for s in lp.body for x in ast.walk(s) if isinstance(x, ast.Name) and isinstance(x.ctx, ast.Store))
                 names = set(x.id for x in ast.walk(lp.iter) if isinstance(x, ast.Name)) - {'self', 'range', 'enumerate'}
                 ctx.ob('I-PROG', f.construct, 'for over %s: iterable not rebound in the body' % it[:40], not (names & stored), got=sorted(names & stored), line=lp.lineno)
+                if isinstance(lp.iter, ast.Call) and isinstance(lp.iter.func, ast.Name) and lp.iter.func.id == 'range':
+                    for cur, ok, why in _chained_cursor_progress(w, f, lp, env):
+                        n += 1
+                        ctx.ob('I-PROG', f.construct, 'counted walk over a chain: cursor %s moves forward or the walk ends' % cur, ok, got=why, line=lp.lineno,
+                               msg='a count taken from the file bounds this walk, but its cursor follows a "next" field that may be 0: a corrupted count '
+                                   're-reads one record count times (2**32), far beyond the size of the file',
+                               sample='%s: for _ in range(count) with cursor %s -- %s' % (f.construct, cur, why))
     ctx.analysed['battery_loops'] = n
+
+
+def _chained_cursor_progress(w, f, lp, env):
+    """A `for _ in range(count)` loop that carries its own cursor: a local that the body uses as the position of a parse and
+    advances by a value read from the file.  -> [(cursor, ok, why)].  On every path through the body that reaches the advance, the
+    advance has a positive lower bound, or it is an unsigned field and the path has tested it to be non-zero (a zero "next" ends the
+    chain: the walk must leave the loop there, not read the same record again)."""
+    out = []
+    lb = LB(w, f.node)
+    signs = lb.signs
+    pos_names = set()
+    for c in ast.walk(lp):
+        if isinstance(c, ast.Call) and (dispatch.callee_name(c) or '') == 'struct_parse':
+            pos = c.args[2] if len(c.args) > 2 else next((k.value for k in c.keywords if k.arg == 'stream_pos'), None)
+            if isinstance(pos, ast.Name):
+                pos_names.add(pos.id)
+    advs = [st for st in ast.walk(lp) if isinstance(st, ast.AugAssign) and isinstance(st.op, ast.Add) and isinstance(st.target, ast.Name) and st.target.id in pos_names]
+    for cur in sorted(set(a.target.id for a in advs)):
+        ok = True
+        why = []
+        for p in paths.enum_paths(lp.body):
+            for ev in p.events:
+                if ev[0] == 'stmt' and ev[1] in advs and ev[1].target.id == cur:
+                    adv = ev[1].value
+                    b = lb.of(adv)
+                    if b is None:
+                        b = _variable_field_lb(f, adv, signs)
+                    if b is not None and b >= 1:
+                        why.append('advance >= %d' % b)
+                        continue
+                    facts = expr.Facts(expr.CP(expr.cond_str(t, env), pol) for t, pol in p.conds())
+                    nz = facts.truth('%s != 0' % U(adv), env)
+                    if b is not None and b >= 0 and nz is True:
+                        why.append('unsigned advance tested non-zero on the path')
+                    else:
+                        ok = False
+                        why.append('advance %s: lower bound %s, not tested against 0 before it is added' % (U(adv)[:40], b))
+        out.append((cur, ok, sorted(set(why))))
+    return out
+
+
+def _variable_field_lb(f, adv, signs):
+    """entry[K] with K = self._field_name('<x>'[, auxiliary=True]): every structure field '<prefix>_<x>' / '<prefix>a_<x>' it can
+    name is declared unsigned -> 0"""
+    if not (isinstance(adv, ast.Subscript) and isinstance(adv.slice, ast.Name)):
+        return None
+    defs = [st.value for st in ast.walk(f.node) if isinstance(st, ast.Assign) and len(st.targets) == 1 and isinstance(st.targets[0], ast.Name) and
+            st.targets[0].id == adv.slice.id]
+    if len(defs) != 1 or not (isinstance(defs[0], ast.Call) and (dispatch.callee_name(defs[0]) or '').endswith('_field_name') and defs[0].args and
+                              isinstance(defs[0].args[0], ast.Constant)):
+        return None
+    x = defs[0].args[0].value
+    cands = [k for k in signs if k.startswith('v') and (k.endswith('_' + x)) and len(k) <= len(x) + 4]
+    if cands and all(all(c in UNSIGNED_CTORS for c in signs[k]) for k in cands):
+        return 0
+    return None
 
 
 def _assigned_in(loop):
@@ -567,6 +631,10 @@ def check_strides(ctx, w):
 
 
 MUTANTS = [
+    ('verneed-chain-end-gone', 'elf/gnuversions.py', "            if entry[next_field] == 0:\n                break\n            entry_offset += entry[next_field]\n\n\nclass",
+     "            entry_offset += entry[next_field]\n\n\nclass", 'I-PROG'),
+    ('vernaux-chain-end-inverted', 'elf/gnuversions.py', "            if entry[next_field] == 0:\n                break\n            entry_offset += entry[next_field]\n\n    def iter_versions",
+     "            if entry[next_field] != 0:\n                break\n            entry_offset += entry[next_field]\n\n    def iter_versions", 'I-PROG'),
     ('bound-test-gone', EF, "        if stream_pos > self.stream_len:\n            return None\n", "", 'K-'),
     ('elf-assert-assert', EF, "        elf_assert(magic == b'\\x7fELF', 'Magic number does not match')", "        assert magic == b'\\x7fELF', 'Magic number does not match'", 'K-ASSERT'),
     ('valueerror', EF, "            raise ELFError('Invalid EI_CLASS %s' % repr(ei_class))", "            raise ValueError('Invalid EI_CLASS %s' % repr(ei_class))", 'K-RAISE'),
